@@ -123,6 +123,9 @@ func (g *gateImpl) Clear() {
 	g.arrived = 0
 	g.err = nil
 	g.count = g.initialCount
+	if g.arrived == g.count {
+		g.gateCondition.Broadcast()
+	}
 }
 
 // NewGate returns new gate instance.
